@@ -256,7 +256,7 @@ int main(int argc, char** argv) {
     verif::Run run("C14", argc, argv);
     run.setDeadline(400, 2400);   // safety net only
     const bool th = run.thorough();
-    run.rule = "E3: models = level A (every KINDxDIRxFRAMES variant, incl. Weld, as base/middle/tip/fork-branch of a 3-body tree with companions {Pin,Ball,Free}^2) plus the massless-middle-body variant of every role-1 model (kept when the mass matrix stays SPD with cond<1e7, else counted as not legal); x COORD{quaternion,Euler} x STATE (quick: generic and zero-velocity state of value set seed%3; thorough: all 4 state kinds of that value set + the generic state of the other two value sets) x MASS(variant's mass kind = value set, so thorough uses all 3; companions always carry kinds 0,1,2) x FORCE{gravity; gravity+point force+torque on every body+mobility force on every u; mobility forces only} x CONS{none, Rod(Ground-tip), Ball constraint(base-tip / siblings), ConstantSpeed on the variant, Motion::Steady, acceleration-level Custom Motion, lock}; distinct = distinct tuple; non-trivial = legal and not skipped for nu=0";
+    run.rule = "E3: KIND = 19 built-in mobilizers, 5 Custom/FunctionBased mirrors with a constant hinge matrix, FunctionBased with nonlinear coordinate functions and 1..6 mobilities (FBN1..6), Custom helix slider with H(q) from X_FM and HDot from V_FM -- 58 KINDxDIR variants (engine/models.h); models = level A (every KINDxDIRxFRAMES variant, incl. Weld, as base/middle/tip/fork-branch of a 3-body tree with companions {Pin,Ball,Free}^2) plus the massless-middle-body variant of every role-1 model (kept when the mass matrix stays SPD with cond<1e7, else counted as not legal); x COORD{quaternion,Euler} x STATE (quick: generic and zero-velocity state of value set seed%3; thorough: all 4 state kinds of that value set + the generic state of the other two value sets) x MASS(variant's mass kind = value set, so thorough uses all 3; companions always carry kinds 0,1,2) x FORCE{gravity; gravity+point force+torque on every body+mobility force on every u; mobility forces only} x CONS{none, Rod(Ground-tip), Ball constraint(base-tip / siblings), ConstantSpeed on the variant, Motion::Steady, acceleration-level Custom Motion, lock}; distinct = distinct tuple; non-trivial = legal and not skipped for nu=0";
     run.assumptions = {"continuous values only from the fixed tables in engine/models.h and the constants in this harness",
                        "trees of 3 mobilized bodies", "reported poses/velocities/accelerations are inputs (their correctness is C02/C03/C05's business)",
                        "constraint body forces are taken from calcConstraintForcesFromMultipliers with the documented sign; constraint and prescribed-motion mobility forces are part of the reaction (documented convention)",
